@@ -19,6 +19,7 @@ def stepLine (d : DState) (line : String) : DState × String :=
   | "SP" :: rest =>
     let (s', l', out) := PrimDrv.step d.prim d.lastPrim rest
     ({ d with prim := s', lastPrim := l' }, out)
+  | "SC" :: rest => let (h, out) := ControllerDrv.step d.sess rest; ({ d with sess := h }, out)
   | "IOU" :: rest => (d, IouDrv.handle rest)
   | "NM" :: rest => (d, NameMap.handle rest)
   | "CG" :: rest => (d, CandGraph.handle rest)
